@@ -566,6 +566,10 @@ pub fn c10_strategy(transports: BoxedStrategy<Transport>) -> BoxedStrategy<ConvC
                             withheld_at = Some(i);
                         }
                     }
+                    // an unsupported expectation is one whatever the request says about its body
+                    if matches!(mal, Malform::Expect(_)) && (variety >> 28) & 3 == 1 {
+                        r.headers.push(Hdr::new("Content-Length", "0"));
+                    }
                     r.mal = Some(mal);
                 }
                 conv.reqs.push(r);
